@@ -14,7 +14,9 @@ from contracts import c06_handles
 from vlib.common import PROVED, REFUTED, UNKNOWN
 
 # finding id -> regex over obligation names (a REFUTED obligation is `refuted-known` only while the id is listed as known)
-KNOWN = []
+KNOWN = [
+    (c06_handles.FID_STALE, re.compile(r"^statistics\.cache_dropped_when_row_groups_change\[")),
+]
 
 FUNCTION = [
     (re.compile(r"\[__init__"), "api.ParquetFile.__init__"),
@@ -25,6 +27,9 @@ FUNCTION = [
     (re.compile(r"\[head"), "api.ParquetFile.head"),
     (re.compile(r"^reads\..*\[count"), "api.ParquetFile.count"),
     (re.compile(r"\[_read_partitions"), "api.ParquetFile._read_partitions"),
+    (re.compile(r"^handles\.derived_statistics"), "api.ParquetFile.statistics"),
+    (re.compile(r"^statistics\.cache_dropped.*\[(\w+)\]"), "api.ParquetFile (in-place edits)"),
+    (re.compile(r"^statistics\."), "api.ParquetFile.statistics"),
     (re.compile(r"^handles\.derived"), "api.ParquetFile.__getitem__"),
     (re.compile(r"^handles\.state_roundtrip"), "api.ParquetFile.__setstate__"),
     (re.compile(r"^count\..*\.info_"), "api.ParquetFile.info"),
@@ -40,9 +45,16 @@ def _function(name):
     return "api.ParquetFile (frame)"
 
 
-def p_handles(ctx):
+def p_handles_statistics(ctx):
+    """C04 selection: the cache behind ParquetFile.statistics - the state a derived handle (pf[i], pf[a:b]) starts from holds no
+    row-group dependent cache of the parent, its `statistics` are computed from its own row groups, the cache is only ever set
+    from statistics(self), in-place edits drop it.  Wired into props/C04.py through optional_parts(("_handles", "p_handles_statistics"))."""
+    return p_handles(ctx, select="C04")
+
+
+def p_handles(ctx, select=None):
     ctx.assumptions += [a for a in c06_handles.ASSUMED if a not in ctx.assumptions]
-    for res in c06_handles.check(ctx, 10000 if ctx.tier == "quick" else 60000):
+    for res in c06_handles.check(ctx, 10000 if ctx.tier == "quick" else 60000, select=select):
         for name in res.order:
             st = res.status(name)
             e = next((x for x in res.d[name] if x[0] == st), res.d[name][0])
@@ -54,7 +66,8 @@ def p_handles(ctx):
                 ctx.known_finding(fid)
                 continue
             ctx.obligation(name, fn, st, e[3], secs, detail=e[4], model=e[1] if st == REFUTED else None,
-                           sample=(st != PROVED or "not_closed[to_pandas,file-like" in name or "derived_handle_counts" in name))
+                           sample=(st != PROVED or "not_closed[to_pandas,file-like" in name or "derived_handle_counts" in name or
+                                   "derived_statistics" in name))
             if st == REFUTED:
                 ctx.violation(name, {"function": fn, "model": e[1], "solver_output": str(e[1])[:600], "snippet": None}, False,
                               what=(e[4] or "")[:200])
